@@ -124,14 +124,29 @@ Fixpoint sort (l : list item) : list item :=
   | x :: r => insert x (sort r)
   end.
 
-(* ---- oct() *)
-Fixpoint oct_digits_fuel (fuel : nat) (n : N) : list N :=     (* least significant first *)
-  match fuel with
-  | O => []
-  | S f => if (n <? 8)%N then [n] else (n mod 8)%N :: oct_digits_fuel f (n / 8)%N
+(* ---- oct(): octal digits, least significant first, three bits of the positive at a time
+   (structural recursion, no fuel) *)
+Fixpoint oct_pos (p : positive) : list N :=
+  match p with
+  | xH => [1%N]
+  | xO xH => [2%N]
+  | xI xH => [3%N]
+  | xO (xO xH) => [4%N]
+  | xI (xO xH) => [5%N]
+  | xO (xI xH) => [6%N]
+  | xI (xI xH) => [7%N]
+  | xO (xO (xO q)) => 0%N :: oct_pos q
+  | xI (xO (xO q)) => 1%N :: oct_pos q
+  | xO (xI (xO q)) => 2%N :: oct_pos q
+  | xI (xI (xO q)) => 3%N :: oct_pos q
+  | xO (xO (xI q)) => 4%N :: oct_pos q
+  | xI (xO (xI q)) => 5%N :: oct_pos q
+  | xO (xI (xI q)) => 6%N :: oct_pos q
+  | xI (xI (xI q)) => 7%N :: oct_pos q
   end.
 
-Definition oct_digits (n : N) : list N := oct_digits_fuel (S (N.size_nat n)) n.
+Definition oct_digits (n : N) : list N :=
+  match n with N0 => [0%N] | Npos p => oct_pos p end.
 
 Definition digit_char (d : N) : ascii := ascii_of_N (48 + d).
 
